@@ -178,6 +178,20 @@ pub fn check_batch(cs: &[Constraint]) -> Vec<(usize, Fail)> {
         let end = after.find('}')?;
         Some((ty, after[brace + 1..end].trim().replace('_', "")))
     };
+    // value references typed by the same constraints, in a module of their own (a rejection there is not
+    // this property's subject: the position is then skipped)
+    let consts = {
+        let mut t = String::from("Consts DEFINITIONS AUTOMATIC TAGS ::= BEGIN\n");
+        for (i, c) in cs.iter().enumerate() {
+            let v = c.lb.or(c.ub).unwrap_or(0);
+            t.push_str(&format!("v{i} {} ::= {v}\n", c.asn1()));
+        }
+        t.push_str("END\n");
+        match catch(|| parse_and_resolve(&t).ok().map(|m| m.to_rust())) {
+            Ok(Some(m)) => Some(m),
+            _ => None,
+        }
+    };
     for (i, c) in cs.iter().enumerate() {
         let want = expected_type(c);
         // tuple struct T<i> and field f<i> of Rec
@@ -218,6 +232,24 @@ pub fn check_batch(cs: &[Constraint]) -> Vec<(usize, Fail)> {
                 if lo != l as i128 || hi != u as i128 {
                     fails.push((i, (format!("model-bounds:{}", shape(c)), format!("{what}: the Rust model records {lo}..{hi}"))));
                     continue;
+                }
+            }
+        }
+        // third position: a module-level INTEGER value reference typed by the same constraint (the type of
+        // the generated `pub const` is chosen by a separate mapping); judged only by "can hold every permitted
+        // value" and "extensible ranges map to 64-bit types"
+        if let Some(vr) = consts.as_ref().and_then(|m| m.value_references.iter().find(|v| v.name.replace('_', "").eq_ignore_ascii_case(&format!("v{i}")))) {
+            let (name, _) = rust_type_name(&vr.role);
+            if matches!(name.as_str(), "i8" | "i16" | "i32" | "i64" | "u8" | "u16" | "u32" | "u64") {
+                let what = format!("{} (value reference v{i})", c.asn1());
+                let (tlo, thi) = type_range(&name);
+                let need_lo = c.lb.map(|v| v as i128).unwrap_or(if c.none || (c.lb.is_none() && c.ub.is_none()) || c.ub == Some(i64::MAX) { 0 } else { i64::MIN as i128 });
+                let need_hi = c.ub.map(|v| v as i128).unwrap_or(i64::MAX as i128);
+                let documented_u64 = want == vec!["u64"] && (c.none || c.lb.is_none());
+                if !documented_u64 && (need_lo < tlo || need_hi > thi) {
+                    fails.push((i, (format!("const-type-too-narrow:{}", shape(c)), format!("{what}: Rust type {name} of the constant cannot hold every permitted value ({need_lo}..{need_hi})"))));
+                } else if c.ext && !c.none && name != "i64" && name != "u64" {
+                    fails.push((i, (format!("const-type-not-64-bit:{}", shape(c)), format!("{what}: the range is extensible but the constant's Rust type is {name}"))));
                 }
             }
         }
